@@ -557,10 +557,9 @@ __wrap_posix_spawn(pid_t *pid, const char *path,
 
 		ndups = 0;
 		if (X.mail_fail) {
-			errno = X.mail_fail;
 			h_begin("mailspawnfail", vt);
 			h_end();
-			return -1;
+			return X.mail_fail;
 		}
 		(void)rfd;
 		M.active = 1;
@@ -591,10 +590,10 @@ __wrap_posix_spawn(pid_t *pid, const char *path,
 	njobspawn++;
 	if (X.spawn_fail) {
 		ndups = 0;
-		errno = X.spawn_fail;
+		/* posix_spawn() returns the error number and leaves *pid alone */
 		h_begin("jobspawnfail", vt);
 		h_end();
-		return -1;
+		return X.spawn_fail;
 	}
 	memset(&A, 0, sizeof(A));
 	A.alive = 1;
@@ -993,7 +992,7 @@ const char *__asan_default_options(void);
 __attribute__((used)) const char*
 __asan_default_options(void)
 {
-	return "exitcode=77:detect_leaks=0:abort_on_error=0:handle_abort=0:"
+	return "exitcode=77:detect_leaks=0:abort_on_error=0:handle_abort=0:detect_stack_use_after_return=0:"
 		"allocator_may_return_null=1";
 }
 
@@ -1049,6 +1048,7 @@ run_one(const char *script, const char *histfn)
 		__real_alarm(20);
 		h_begin("start", vt);
 		h_end();
+		scrub_stack();
 		rc = echsx_main(X.argc, X.argv);
 		h_begin("main-returned", vt);
 		h_int("rc", rc);
@@ -1083,6 +1083,7 @@ run_one(const char *script, const char *histfn)
 int
 main(int argc, char *argv[])
 {
+	no_aslr(argv);
 	if (argc >= 4 && !strcmp(argv[1], "run")) {
 		return run_one(argv[2], argv[3]);
 	} else if (argc >= 2 && !strcmp(argv[1], "serve")) {
